@@ -14,7 +14,7 @@ the block's consensus: unknown variants are rejected / false, PoA goes through t
 (3) Block::try_from_executed yields Some only if validate_transactions is true; validate_transactions
 compares both the regenerated transactions root and the count; (4) FIELDCOV: ConsensusHeader::hash and
 ApplicationHeader::hash feed every field of their struct (including the generated fields) into the
-hasher, and generate_txns_root hashes to_bytes() of every transaction in order. validate_transactions contains no value-truncating integer cast (the transaction count is compared at full width); under fault-proving the V2 header and application-hash impls are checked as well.
+hasher, and generate_txns_root hashes to_bytes() of every transaction in order. validate_transactions contains no value-truncating integer cast (the transaction count is compared at full width); under fault-proving the V2 header and application-hash impls are checked as well. The length is also not narrowed by conversion (try_from / try_into / min / clamp / unwrap_or) before it is compared with the header's count.
 """
 NOT_DECIDED = """Signature cryptography; Merkle arithmetic; the importer's use of these checks is C08.6."""
 
